@@ -982,7 +982,7 @@ func gen(c *core.Ctx) error {
 		}
 		rec([]op{k.first}, 0)
 	}
-	n := 500
+	n := 300
 	if !c.Quick() {
 		n = 6000
 	}
